@@ -138,4 +138,35 @@ def runC (ix : Index) : Memo Name → List Op → List Ans
   | c, .lookup a :: ops => let r := lookupC ix c a; .lookup r.2 :: runC ix r.1 ops
   | c, .iter :: ops => let r := iterSymbolsC ix c; .iter r.2 :: runC ix r.1 ops
 
+/-! ### `iter_symbols` element by element: the cache is locked once per element (lines 313-316) -/
+
+def iterElemC (ix : Index) (c : Memo Name) (i : Nat) : Memo Name × Option (Nat × Name) :=
+  match ix.rels[i]? with
+  | none => (c, none)                                 -- not reached: `i < symbol_count()`
+  | some s =>
+    let r := Memo.get (nameAt ix) c i
+    (r.1, r.2.map fun n => (s, n))
+
+def iterElem (ix : Index) (i : Nat) : Option (Nat × Name) :=
+  (ix.rels[i]?).bind fun s => (nameAt ix i).map fun n => (s, n)
+
+inductive Step where
+  | lookup (a : Addr)
+  | elem (i : Nat)
+deriving DecidableEq, Repr
+
+inductive StepAns where
+  | lookup (r : Out SymInfo)
+  | elem (o : Option (Nat × Name))
+deriving DecidableEq, Repr
+
+def pureStep (ix : Index) : Step → StepAns
+  | .lookup a => .lookup (lookup ix a)
+  | .elem i => .elem (iterElem ix i)
+
+def runSteps (ix : Index) : Memo Name → List Step → List StepAns
+  | _, [] => []
+  | c, .lookup a :: st => let r := lookupC ix c a; .lookup r.2 :: runSteps ix r.1 st
+  | c, .elem i :: st => let r := iterElemC ix c i; .elem r.2 :: runSteps ix r.1 st
+
 end JitDump
